@@ -12,6 +12,7 @@ mod grammar;
 mod live;
 mod meter;
 mod templates;
+mod watchdog;
 
 use grammar::Leaf;
 use rtcverif::*;
@@ -20,6 +21,22 @@ use std::collections::HashMap;
 
 #[global_allocator]
 static ALLOC: meter::Counting = meter::Counting;
+
+/// Line-at-a-time writer (nothing is lost if the watchdog has to end the process).
+struct Out(std::fs::File);
+impl Out {
+    fn create(path: &str, append: bool) -> Out {
+        use std::fs::OpenOptions;
+        let f = if append { OpenOptions::new().append(true).create(true).open(path) } else { std::fs::File::create(path) };
+        Out(f.unwrap_or_else(|e| panic!("open {path}: {e}")))
+    }
+    fn push(&mut self, v: &Value) {
+        use std::io::Write;
+        let mut line = serde_json::to_vec(v).expect("json");
+        line.push(b'\n');
+        self.0.write_all(&line).expect("write");
+    }
+}
 
 pub struct Bounds {
     pub cpu_us: u64,
@@ -226,7 +243,9 @@ fn main() {
         grammar::FILL.store(f, std::sync::atomic::Ordering::Relaxed);
     }
     let cases = read_ndjson(&args[2]);
-    let mut out = NdjsonOut::create(&args[3]);
+    let mut out = Out::create(&args[3], std::env::var("VERIF_FROM").is_ok());
+    let from: usize = std::env::var("VERIF_FROM").ok().and_then(|s| s.parse().ok()).unwrap_or(0);
+    watchdog::start(format!("{}.abort", args[3]));
     meter::install_panic_hook();
     let nvariants: u64 = std::env::var("VERIF_VARIANTS").ok().and_then(|s| s.parse().ok()).unwrap_or(2);
     let ctx = Ctx { grammars, bounds, seed: Rng::from_env(), nvariants };
@@ -245,7 +264,7 @@ fn main() {
         let leaves = &ctx.grammars[tpl];
         match Genuine::new(leaves, bytes.clone()) {
             Ok(g) => {
-                if shard == 0 {
+                if shard == 0 && from == 0 {
                     let m = measured(&ctx.bounds, entry, tpl, &bytes);
                     out.push(&json!({"type": "baseline", "tpl": tpl, "entry": entry, "conforms": true, "res": m["res"], "detail": m["detail"], "len": bytes.len()}));
                 }
@@ -262,9 +281,10 @@ fn main() {
     let mut live_state = live::State::default();
     let mut n_run = 0usize;
     for (ci, c) in cases.iter().enumerate() {
-        if ci % nshards != shard {
+        if ci % nshards != shard || ci < from {
             continue;
         }
+        watchdog::begin(ci);
         let entry = c["entry"].as_str().unwrap();
         let tpl = c["tpl"].as_str().unwrap();
         let mutn = c["mut"].as_str().unwrap();
@@ -334,6 +354,6 @@ fn main() {
         }
         out.push(&obs);
     }
+    watchdog::end();
     out.push(&json!({"type": "summary", "shard": shard, "executions": n_run}));
-    out.finish();
 }
